@@ -41,6 +41,10 @@ func syncPlan(prop, tier string, seed uint64) (runs []syncRun, crashIsViolation 
 			runs = append(runs, syncRun{"3 replicas exchanging directly (peer remotes, atomic pull): a replica merging other people's heads", p3, 5, 75 * time.Second})
 			t3 := syncw.Params{Replicas: 3, Oracles: "c01", Seed: seed, OneEdit: true, NewBug: true}
 			runs = append(runs, syncRun{"3 replicas, a second bug may be created", t3, 4, 60 * time.Second})
+			// a fetch whose merge never happened (a preview, or a pull that stopped half-way) must not keep
+			// the later synchronisation from converging: split fetch/merge, closure from every state
+			fs := syncw.Params{Replicas: 2, Oracles: "c01", Seed: seed, Split: true, OneEdit: true, Closure: true}
+			runs = append(runs, syncRun{"2 replicas, split fetch/merge over the shared remote, synchronisation from every state", fs, 4, 45 * time.Second})
 		} else {
 			runs = []syncRun{{"2 replicas, atomic pull", base, 8, 15 * time.Minute}}
 			x := syncw.Params{Replicas: 2, Oracles: "c01", Seed: seed, Peers: true, Split: true, NoRemote: true}
@@ -57,6 +61,8 @@ func syncPlan(prop, tier string, seed uint64) (runs []syncRun, crashIsViolation 
 			dk := base
 			dk.Disk, dk.Closure = true, false
 			runs = append(runs, syncRun{"2 replicas, stock git transport (plain-path remote): cross-check of the in-process transport", dk, 5, 10 * time.Minute})
+			fs := syncw.Params{Replicas: 2, Oracles: "c01", Seed: seed, Split: true, OneEdit: true, Closure: true}
+			runs = append(runs, syncRun{"2 replicas, split fetch/merge over the shared remote, synchronisation from every state", fs, 6, 10 * time.Minute})
 		}
 		rule = "breadth-first over all interleavings of edit/push/pull actions of the replicas; states deduplicated by (all refs of all repositories, persisted clocks, per-actor seam counters); a state is non-trivial when distinct by that key"
 	case "C02":
